@@ -195,6 +195,7 @@ func run(t *rapid.T, r *rec.Recorder) {
 	acts["recvFresh2"] = recvFresh
 	acts["ack"] = ack
 	acts["ack2"] = ack
+	acts["ackAgain"] = m.Wrap(m.ActAckAgain)
 	acts[""] = func(t *rapid.T) { m.T = t; c.check() }
 	t.Repeat(acts)
 
